@@ -225,6 +225,40 @@ def source_shapes(repo, consts):
     return out
 
 
+SIZES = {'u8': 1, 'u16': 2, 'u32': 4, 'u64': 8, 'DeviceStatus': 4}
+WRAP = {'ReadPure': 1, 'ReadOnly': 1, 'WriteOnly': 2, 'ReadPureWrite': 3, 'ReadWrite': 3}
+
+
+def source_layouts(repo, consts):
+    """for every `#[repr(C)]`-style register struct whose members are all (wrapped) integers or arrays of them:
+    [(size in bytes, wrapper code)] in declaration order"""
+    out = {}
+    src = os.path.join(repo, 'src')
+    for root, _, files in os.walk(src):
+        for f in sorted(files):
+            if not f.endswith('.rs') or f in ('verif.rs', 'fake.rs'): continue
+            text = strip_comments(open(os.path.join(root, f), errors='replace').read())
+            for sm in re.finditer(r'\bstruct\s+([A-Za-z0-9_]+)\s*\{', text):
+                i = sm.end(); depth = 1
+                while i < len(text) and depth: depth += {'{': 1, '}': -1}.get(text[i], 0); i += 1
+                body = text[sm.end():i - 1]
+                ok = True; lay = []
+                for part in body.split(','):
+                    part = re.sub(r'#\[[^\]]*\]', '', part).strip()
+                    if not part: continue
+                    fm = re.match(r'^(?:pub(?:\([a-z]+\))?\s+)?([a-z_][A-Za-z0-9_]*)\s*:\s*(.+)$', part, re.S)
+                    if not fm: ok = False; break
+                    ty = ''.join(fm.group(2).split()); n = 1
+                    am = re.match(r'^\[(.+);(\d+)\]$', ty)
+                    if am: ty, n = am.group(1), int(am.group(2))
+                    wm = re.match(r'^([A-Za-z]+)<([A-Za-z0-9_]+)>$', ty)
+                    if wm and wm.group(1) in WRAP and wm.group(2) in SIZES: lay.append((n * SIZES[wm.group(2)], WRAP[wm.group(1)]))
+                    elif ty in SIZES: lay.append((n * SIZES[ty], 4))
+                    else: ok = False; break
+                if ok and lay: out[sm.group(1)] = lay
+    return out
+
+
 def coq_ident(key): return 'src_' + re.sub(r'\W', '_', key)
 
 
@@ -241,10 +275,13 @@ def main():
     if mode == 'dump':
         for k in sorted(consts): print('%s = %d' % (k, consts[k]))
         for k, v in sorted(source_shapes(repo, consts).items()): print('shape %s = %s unsets %s' % (k, v[0], v[1]))
+        for k, v in sorted(source_layouts(repo, consts).items()): print('layout %s = %s' % (k, v))
         return 0
     ns = {}
     exec(open(os.path.join(V, 'tools', 'consts_map.py')).read(), ns)
     shapes = source_shapes(repo, consts)
+    layouts = source_layouts(repo, consts)
+    lpairs = [p for p in ns.get('LAYOUTS', []) if props is None or props in p[2]]
     pairs = [p for p in ns['PAIRS'] if props is None or props in p[2]]
     spairs = [p for p in ns.get('SHAPES', []) if props is None or props in p[2]]
     tie = os.path.join(V, 'build', 'tie' + (('_' + props) if props else ''))
@@ -253,12 +290,16 @@ def main():
         f.write('(* GENERATED on every run by tools/srcconsts.py from %s/src: the numeric constants of the source *)\nFrom Coq Require Import NArith.\nOpen Scope N_scope.\n' % repo)
         for k in sorted(consts): f.write('Definition %s : N := %d.\n' % (coq_ident(k), consts[k]))
         f.write('From Coq Require Import List. Import ListNotations.\n')
+        for k, lay in sorted(layouts.items()):
+            f.write('Definition src_layout_%s : list (N * N) := [%s].\n' % (k, '; '.join('(%d, %d)' % x for x in lay)))
         for k, (kinds, unsets) in sorted(shapes.items()):
             f.write('Definition src_shape_%s : list N * list N := ([%s], [%s]).\n' % (k, '; '.join(map(str, kinds)), '; '.join(map(str, unsets))))
     present = [p for p in pairs if p[1] in consts]
     missing = [p[1] for p in pairs if p[1] not in consts] + ['struct ' + p[1] for p in spairs if p[1] not in shapes]
     spresent = [p for p in spairs if p[1] in shapes]
-    mods = sorted(set(m for p in present + spresent for m in re.findall(r'\b((?:Model|Base)\.[A-Za-z0-9_]+)\.', p[0])))
+    lpresent = [p for p in lpairs if p[1] in layouts]
+    missing += ['register struct ' + p[1] for p in lpairs if p[1] not in layouts]
+    mods = sorted(set(m for p in present + spresent + lpresent for m in re.findall(r'\b((?:Model|Base)\.[A-Za-z0-9_]+)\.', p[0])))
     with open(os.path.join(tie, 'ConstsTie.v'), 'w') as f:
         f.write('(* GENERATED by tools/srcconsts.py from tools/consts_map.py: model constant = source constant, decided by the kernel *)\n')
         f.write('From Coq Require Import NArith List Bool.\nImport ListNotations.\n')
@@ -271,8 +312,14 @@ def main():
         f.write('Fixpoint leqb (a b : list N) : bool := match a, b with [], [] => true | x :: a\', y :: b\' => (x =? y) && leqb a\' b\' | _, _ => false end.\n')
         f.write('Definition shape_ties : list (N * ((list N * list N) * (list N * list N))) := [\n')
         f.write(';\n'.join('  (%d, (%s, SrcConsts.src_shape_%s))' % (1000 + j, re.sub(r'\b(Model|Base)\.', r'VD.\1.', p[0]), p[1]) for j, p in enumerate(spresent)))
-        f.write('].\nDefinition shape_differ := map fst (filter (fun t => negb (leqb (fst (fst (snd t))) (fst (snd (snd t))) && leqb (snd (fst (snd t))) (snd (snd (snd t))))) shape_ties).\nEval vm_compute in shape_differ.\n')
-        f.write('(* the obligation itself: it only type-checks when every pair is equal *)\nTheorem consts_tie : differ = [] /\\ shape_differ = [].\nProof. vm_compute. split; reflexivity. Qed.\n')
+        f.write('].\nDefinition shape_differ := map fst (filter (fun t => negb (leqb (fst (fst (snd t))) (fst (snd (snd t))) && leqb (snd (fst (snd t))) (snd (snd (snd t))))) shape_ties).\n')
+        f.write('(* declarations: member sizes and safe-mmio wrappers of the register blocks *)\n')
+        f.write('Fixpoint lpeqb (a b : list (N * N)) : bool := match a, b with [], [] => true | (x, u) :: a\', (y, v) :: b\' => (x =? y) && (u =? v) && lpeqb a\' b\' | _, _ => false end.\n')
+        f.write('Definition layout_ties : list (N * (list (N * N) * list (N * N))) := [\n')
+        f.write(';\n'.join('  (%d, (%s, SrcConsts.src_layout_%s))' % (2000 + j, re.sub(r'\b(Model|Base)\.', r'VD.\1.', p[0]), p[1]) for j, p in enumerate(lpresent)))
+        f.write('].\nDefinition layout_differ := map fst (filter (fun t => negb (lpeqb (fst (snd t)) (snd (snd t)))) layout_ties).\n')
+        f.write('Definition decl_differ := shape_differ ++ layout_differ.\nEval vm_compute in decl_differ.\n')
+        f.write('(* the obligation itself: it only type-checks when every pair is equal *)\nTheorem consts_tie : differ = [] /\\ decl_differ = [].\nProof. vm_compute. split; reflexivity. Qed.\n')
     r1 = subprocess.run(['coqc', '-noglob', '-R', tie, '', os.path.join(tie, 'SrcConsts.v')], capture_output=True, text=True, cwd=tie)
     r2 = subprocess.run(['coqc', '-noglob', '-Q', os.path.join(V, 'coq', 'theories'), 'VD', '-R', tie, '', os.path.join(tie, 'ConstsTie.v')],
                         capture_output=True, text=True, cwd=tie)
@@ -286,9 +333,13 @@ def main():
     if not m2:
         print('CONSTS pairs=%d error=%s' % (len(pairs), out[-400:])); return 2
     for j in re.findall(r'\d+', m2.group(1)):
-        sp = spresent[int(j) - 1000]
-        mism.append('field order / Drop of struct %s: source %s, model %s differs' % (sp[1], shapes[sp[1]], sp[0]))
-    print('CONSTS pairs=%d equal=%d missing=[%s] mismatch=[%s]' % (len(pairs) + len(spairs), len(present) + len(spresent) - len(mism), ', '.join(missing), '; '.join(mism)))
+        if int(j) >= 2000:
+            lp = lpresent[int(j) - 2000]
+            mism.append('member sizes / wrappers of register struct %s: source %s, model %s differs' % (lp[1], layouts[lp[1]], lp[0]))
+        else:
+            sp = spresent[int(j) - 1000]
+            mism.append('field order / Drop of struct %s: source %s, model %s differs' % (sp[1], shapes[sp[1]], sp[0]))
+    print('CONSTS pairs=%d equal=%d missing=[%s] mismatch=[%s]' % (len(pairs) + len(spairs) + len(lpairs), len(present) + len(spresent) + len(lpresent) - len(mism), ', '.join(missing), '; '.join(mism)))
     return 1 if mism else 0
 
 
